@@ -1,3 +1,5 @@
 //! one module per property: `run(&Run)` explores, `replay(section, case)` re-executes one saved case
 pub mod c17;
 pub mod c18;
+pub mod c01;
+pub mod c15;
